@@ -972,7 +972,7 @@ def run_c09(ctx):
             flip = tuple(r.case.cfg[:6]) + (1 - r.case.cfg[6],)
             sample.append(ctx.case("literal-formatted", t, flip))
             sample.append(ctx.case("literal-formatted", t.replace("\r\n", "\n") if "\r\n" in t else t.replace("\n", "\r\n"), r.case.cfg))
-    ctx.run_stream(sample, units=["recon", "settings", "mlstring", "mlvalue"])
+    ctx.run_stream(sample, units=["recon", "settings", "mlstring", "mlvalue", "e2e"])
     settings_grid(ctx)
     ctx.hypotheses["H-W2 (the wrapper's plan does not depend on the newline string)"] = "lf/crlf configuration pairs on the real formatter"
 
@@ -1039,7 +1039,7 @@ def run_c10(ctx):
     # the wrapper measures a line with the strings the reconstructor emits: its logged line length of every decided
     # token against the model of get_token_line_length and against the rendered column, under narrow widths too
     sample += [ctx.case("trace-narrow", t, gen.random_cfg(rng, wrap=rng.choice([30, 50, 80]))) for t, _, _ in pool[:: max(1, len(pool) // ctx.n(300, 3000))]]
-    ctx.run_stream(sample, units=["recon", "settings", "measure", "search"])
+    ctx.run_stream(sample, units=["recon", "settings", "measure", "search", "e2e"])
     ctx.hypotheses["the search reads the reconstruction settings only through the two indentation string lengths (signature of wrap_phase)"] = "unit search on every traced case: the model, which has no other access, reproduces every decision"
     ctx.hypotheses["the search's measured line length (LineWhitespace::len, get_token_line_length) is the model's"] = "unit measure on every traced case: hook log of last_line_length per decision"
     ctx.hypotheses["H-W3 (with the width unconstrained the plan does not depend on indentation widths)"] = "tabs/spaces pairs on the real formatter with wrap_column = 10^9"
@@ -1376,7 +1376,7 @@ def run_c04(ctx):
         ctx.fail("abort", deep, r.failure[0] + " " + r.failure[1], site="stack-overflow", depth=200000)
     ctx.run_stream(cases, units=["passes", "cursor", "grammar"], panics_are_failures=True, per_case_timeout=1.0, case_limit_ms=15000, slow_ms=3000)
     # the termination theorems of the search are about the search model: tied on a sample of the same cases
-    ctx.run_stream([ctx.case(c.meta["stream"] + "-s", c.text, c.cfg) for c in cases[:: ctx.n(8, 3)] if len(c.input_bytes()) < 4000], units=["search"], per_case_timeout=1.0, case_limit_ms=15000)
+    ctx.run_stream([ctx.case(c.meta["stream"] + "-s", c.text, c.cfg) for c in cases[:: ctx.n(8, 3)] if len(c.input_bytes()) < 4000], units=["search", "e2e"], per_case_timeout=1.0, case_limit_ms=15000)
     ctx.oracle_counts["max_case_ms"] = getattr(ctx, "max_ms", 0)
     if not ctx.quick():
         # the plain release profile (no overflow checks): wrap-around instead of panic must not hang or crash either
@@ -1780,7 +1780,7 @@ def run_c06(ctx):
     run_pairs(ctx, pairs, compare)
     sample = [ctx.case("trace", t, gen.random_cfg(rng)) for t, _, _ in wellformed_texts(ctx, 20)[:: ctx.n(4, 1)]]
     # (the parser's and the search's layout independence are facts about the grammar model and the search model: both are tied here too)
-    ctx.run_stream(sample, units=["spacing", "fmtdata", "grammar", "search"])
+    ctx.run_stream(sample, units=["spacing", "fmtdata", "grammar", "search", "e2e"])
     ctx.hypotheses["the wrapper's search reads token types, spaces_before, content lengths, last-line lengths of multi-line tokens and the logical lines only (signature of wrap_phase; no original line breaks)"] = "unit search on the traced sample: the model reproduces every decision from these inputs alone"
     ctx.hypotheses["H-P2 / H-W2: parser and wrapper do not consult the original layout (except the documented reads)"] = "relayout metamorphic pairs on the real formatter; inventory of leading-whitespace reads proved equal to the modelled set"
 
@@ -1871,7 +1871,7 @@ def run_c03(ctx):
     sample = [ctx.case("trace", c.text, c.cfg) for c in second[:: max(1, len(second) // 300)]]
     # first-pass inputs too (un-normalised comments, keyword case): the rewriters against their models
     sample += [ctx.case("trace1", c.text, c.cfg) for c in first[:: max(1, len(first) // ctx.n(600, 4000))]]
-    ctx.run_stream(sample, units=["spacing", "lower", "comment", "eofnl", "mlstring", "fmtdata", "search"])
+    ctx.run_stream(sample, units=["spacing", "lower", "comment", "eofnl", "mlstring", "fmtdata", "search", "e2e"])
     ctx.hypotheses["the plan is a function of the layout-free view except spaces_before of continuing tokens (search_first_token_spaces_irrelevant) and the child_line_cache kept across the reflow (F6, modelled)"] = "unit search on first- and second-pass inputs"
     ctx.hypotheses["H-W2/H-W4/H-W5: the wrapper's plan is a function of the layout-free view; reflow = fresh call"] = "fmt(fmt(x)) = fmt(x) on the real formatter"
 
@@ -1990,7 +1990,7 @@ def run_c05(ctx):
                 ctx.fail("statement_wrong_indentation", c, "%s at depth %d is indented by %r, expected %d units of %r: %r" % (kind, depth, lead, depth, unit, out[ls:pos + 15]), observed=r.out.hex()[:3000])
                 return
 
-    ctx.run_stream(cases, units=["levels", "grammar", "linescover", "eofline", "canon"], oracle=oracle)
+    ctx.run_stream(cases, units=["levels", "grammar", "linescover", "eofline", "canon", "e2e"], oracle=oracle)
     ctx.hypotheses["grammar assigns level d+1 inside a block opened at level d; one logical line per statement"] = "generator-marked statement heads checked against line starts and indentation of the real output"
     ctx.hypotheses["H-W1: first token of a top-level line breaks at `level` indentations"] = "unit levels on every trace"
 
@@ -2175,7 +2175,7 @@ def run_c11(ctx):
     # the limit is applied to a MEASURED length: the search's logged line length of every decided token against the
     # model of get_token_line_length and against the rendered column (theorem C11_measured_fit_is_rendered_fit)
     msample = [ctx.case("trace-" + c.meta["stream"], c.text, c.cfg) for c in cases[:: max(1, len(cases) // ctx.n(500, 5000))]]
-    ctx.run_stream(msample, units=["measure", "recon", "wrapapply", "search"])
+    ctx.run_stream(msample, units=["measure", "recon", "wrapapply", "search", "e2e"])
     ctx.hypotheses["the penalties, the over-length test and the iteration limit of the search are the model's (Model/WrapSearch.v)"] = "unit search on the traced sample: WS lines (penalty, iterations, length) compared per find_optimal_solution call"
     ctx.hypotheses["the search's measured line length (LineWhitespace::len, get_token_line_length) is the model's"] = "unit measure on a traced sample of the width-pair cases"
 
